@@ -63,7 +63,17 @@ impl MetricSink for RecSink {
         match o {
             SinkOutcome::Accept => {
                 g.emits.push((metric.to_string(), true));
-                Ok(metric.len())
+                // what a sink returns with Ok is its own business (bytes, metrics taken, 0 ...): callers must not read
+                // anything into it
+                let len = metric.len();
+                Ok(match crate::rng::hash_str(metric) % 6 {
+                    0 => 0,
+                    1 => 1,
+                    2 => len.saturating_sub(1),
+                    3 => len / 2,
+                    4 => usize::MAX,
+                    _ => len,
+                })
             }
             SinkOutcome::Refuse(kind, msg) => {
                 g.emits.push((metric.to_string(), false));
